@@ -118,6 +118,9 @@ def structured(acc: Acc, cc: CmdCtx, others):
                 b[i] = v
                 judge(acc, cc, bytes(b), "subst:%d" % i, counted=True)
         b[i] = orig
+    for i in range(len(F) - 1):   # adjacent bytes transposed (e.g. checksum bytes in the wrong order, swapped register bytes)
+        if F[i] != F[i + 1]:
+            judge(acc, cc, F[:i] + F[i + 1:i + 2] + F[i:i + 1] + F[i + 2:], "transpose:%d" % i, counted=True)
     for junk in (b"\x00", b"\xff\xff", F, F[:5]):
         judge(acc, cc, F + junk, "trailing:%d" % len(junk))
     for i in (0, 2, 4, len(F) // 2, len(F) - 2):
@@ -133,6 +136,23 @@ def structured(acc: Acc, cc: CmdCtx, others):
             x = rw.rtu_exception_response(cc.addr, fc, code) if cc.framing == "rtu" else rw.tcp_exception_response(7, cc.addr, fc, code)
             judge(acc, cc, x, "exception:%d" % code)
             judge(acc, cc, x[:-1] + bytes((x[-1] ^ 0x10,)), "exception-badcrc:%d" % code)
+
+
+def trailer_job(job):
+    """Every one of the 65,536 values of the two checksum bytes of a valid frame (checksummed framings)."""
+    framing, idx, which = job
+    acc = Acc()
+    cc = commands_for(framing, idx)[which]
+    F = cc.F
+    pos = len(F) - 2 if framing == "aa55" or cc.kind == "read" else 8   # RTU write answers: CRC at 8..9
+    if framing == "rtu" and cc.kind == "read":
+        pos = 5 + F[4]
+    b = bytearray(F)
+    for v in range(65536):
+        b[pos] = v >> 8
+        b[pos + 1] = v & 0xFF
+        judge(acc, cc, bytes(b), "trailer:%04x" % v, counted=True)
+    return acc
 
 
 def commands_for(framing, idx):
@@ -339,6 +359,9 @@ def run(ctx):
     jobs = [(f, i) for i in range(nidx) for f in ("rtu", "tcp", "aa55")]
     ctx.shard(struct_job, jobs, "structured neighbourhood: all truncations, all single-bit flips, 256 substitutions per header position, foreign frames")
     ctx.exhaustive_parts.append("for each generated command: every truncation, every single-bit flip and every byte value at every header/length/echo/checksum position of its valid answer")
+    tj = [(f, i, w) for f in ("rtu", "aa55") for i in range(ctx.pick(1, 4)) for w in range(3)]
+    ctx.shard(trailer_job, tj, "all 65,536 values of the checksum bytes of valid frames (read / write / multi or fixed AA55 commands)")
+    ctx.exhaustive_parts.append("all 65,536 trailer (CRC-16 / additive checksum) values for %d valid frames per checksummed framing" % (3 * ctx.pick(1, 4)))
     n = ctx.pick(24000, 400000)
     ctx.shard(hyp_job, [(ctx.seed * 1000 + i, n // 16) for i in range(16)], "hypothesis mutations (with checksum re-sealing), splices, random bytes")
     ctx.shard(e2e_job, [(f, i) for i in range(ctx.pick(4, 24)) for f in ("rtu", "tcp", "aa55")], "end-to-end: mutated frame served by the scripted peer")
